@@ -774,6 +774,72 @@ func run(c *Ctx) error {
 	}
 	c.Stats.Exhaustive = false
 	c.Stats.Extra["model_hash_computations_estimated"] = e.hashesEst
+	// (Z) concurrent use: roots, proofs and validations computed by several goroutines at once must
+	// equal the results computed sequentially beforehand (the functions are called from the block
+	// validator's worker goroutines and from RPC handlers); verdict is schedule-independent:
+	// any divergence or panic is a violation, agreement proves nothing
+	{
+		type job struct {
+			ids, rel []hash
+			root     hash
+			hs       []hash
+			fs       []uint8
+		}
+		workers, rounds := 8, c.N(40, 200)
+		jobs := make([]*job, workers)
+		for i := range jobs {
+			ids := e.ids(24 + i)
+			rel := e.sublist(ids)
+			j := &job{ids: ids, rel: rel}
+			j.root, _ = implRoot(ids)
+			j.hs, j.fs, _ = implProof(ids, rel)
+			jobs[i] = j
+		}
+		errs := make(chan string, workers*rounds)
+		done := make(chan struct{}, workers)
+		for i := range jobs {
+			go func(j *job) {
+				defer func() {
+					if r := recover(); r != nil {
+						errs <- fmt.Sprintf("panic: %v", r)
+					}
+					done <- struct{}{}
+				}()
+				for k := 0; k < rounds; k++ {
+					if r, pan := implRoot(j.ids); pan != "" || r != j.root {
+						errs <- "merkle root differs from the sequential result " + pan
+						return
+					}
+					hs, fs, pan := implProof(j.ids, j.rel)
+					if pan != "" || len(hs) != len(j.hs) || len(fs) != len(j.fs) {
+						errs <- "generated proof differs from the sequential result " + pan
+						return
+					}
+					for x := range hs {
+						if hs[x] != j.hs[x] {
+							errs <- "generated proof hash differs from the sequential result"
+							return
+						}
+					}
+					if ok, pan := implValidate(j.hs, j.fs, j.rel, j.root); pan != "" || !ok {
+						errs <- "a proof that validates sequentially does not validate " + pan
+						return
+					}
+				}
+			}(jobs[i])
+		}
+		for i := 0; i < workers; i++ {
+			<-done
+		}
+		close(errs)
+		c.Stats.Count("concurrent-rounds")
+		c.Stats.Distribution["concurrent-rounds"] = workers * rounds
+		for m := range errs {
+			c.Stats.Fail("class=concurrent-divergence: with 8 goroutines using the merkle functions at once: "+m, map[string]interface{}{"workers": workers, "rounds": rounds, "list_sizes": "24..31"})
+			break
+		}
+	}
+
 	c.Stats.Rule = "a case is (list of transaction ids, related list); distinct = distinct (ids, related) pair; non-trivial = at least 2 ids and a non-empty related list. " +
 		"For every case the implementation computes the root, generates the proof and validates it, and then validates every derived attempt: " +
 		"each proof hash replaced (random, one bit flipped, another tree node, another proof hash, the empty-string hash), each flag replaced (0,1,2,3,255,random), " +
